@@ -93,7 +93,7 @@ class QueueCell:
 
 
 class Obligation:
-    __slots__ = ("name", "kind", "hyps", "goal", "line", "path_id", "props", "info", "pre")
+    __slots__ = ("name", "kind", "hyps", "goal", "line", "path_id", "props", "info", "pre", "hints")
 
     def __init__(self, name, kind, hyps, goal, line=None, props=(), info=None):
         self.name, self.kind, self.hyps, self.goal, self.line = name, kind, hyps, goal, line
@@ -101,6 +101,7 @@ class Obligation:
         self.props = tuple(props)
         self.info = info
         self.pre = None
+        self.hints = []
 
 
 class PathCtx:
@@ -138,13 +139,14 @@ class PathCtx:
         if not _has_quantifier(f):
             self._solver.add(f)
 
-    def oblige(self, name, goal, kind="post", line=None, props=(), info=None, extra_hyps=()):
+    def oblige(self, name, goal, kind="post", line=None, props=(), info=None, extra_hyps=(), hints=()):
         if goal is True:
             goal = z3.BoolVal(True)
         elif goal is False:
             goal = z3.BoolVal(False)
         ob = Obligation(name, kind, list(self.pc) + [to_z3_bool(h) for h in extra_hyps], to_z3_bool(goal), line, props, info)
         ob.pre = getattr(self, "pre_roots", None)
+        ob.hints = list(hints)
         self.obligations.append(ob)
 
     def feasible(self, f):
@@ -401,8 +403,10 @@ def clone_graph(roots):
 class Roots:
     """attribute-style access to a dict of named root values (contract-side convenience)."""
 
-    def __init__(self, d):
+    def __init__(self, d, trace=None, interp=None):
         self.__dict__["_d"] = d
+        self.__dict__["trace"] = trace if trace is not None else []
+        self.__dict__["interp"] = interp
 
     def __getattr__(self, k):
         try:
@@ -710,6 +714,15 @@ class Interp:
             if fi is not None:
                 return self.call_repo(fi, [obj] + list(args), kwargs, node)
             raise Unsupported(f"method {obj.cls.__name__}.{name} (no stub, no source)")
+        if isinstance(obj, type):
+            h = w.find_method_stub(obj, name)
+            if h is not None:
+                self.stats["stubs_used"].add(f"{obj.__name__}.{name}")
+                return h(self, obj, args, kwargs, node)
+            fi = w.index.lookup_real(bm.func) if bm.func is not None else None
+            if fi is not None:
+                return self.call_repo(fi, [obj] + list(args), kwargs, node)
+            raise Unsupported(f"classmethod {obj.__name__}.{name} (no stub, no source)")
         return self.builtin_method(obj, name, args, kwargs, node)
 
     def call_repo(self, fi: FuncInfo, args, kwargs, node):
@@ -760,6 +773,10 @@ class Interp:
             if name == "value":
                 return obj.e
             raise Unsupported(f"attribute {name} of symbolic enum")
+        if isinstance(obj, SPath):
+            h = getattr(self.world, "spath_attrs", {}).get(name)
+            if h is not None:
+                return h(self, obj)
         if isinstance(obj, (ListCell, DictCell, QueueCell, SBytes, SPath, SStr, tuple, bytes, str)):
             return BoundMethod(obj, name)
         if isinstance(obj, SExc):
